@@ -670,7 +670,12 @@ impl Exec {
                     (
                         u.block_id_of_hash(h.as_bytes()),
                         u.string_to_addr.get(a).copied().unwrap_or(-9),
-                        ops.iter().map(|o| (u.tx_id_of(o.txid.as_bytes()), o.vout + 1)).collect(),
+                        {
+                            // the order inside a block's list is not observable (answers are sorted): compare sorted
+                            let mut l: Vec<(usize, u32)> = ops.iter().map(|o| (u.tx_id_of(o.txid.as_bytes()), o.vout + 1)).collect();
+                            l.sort();
+                            l
+                        },
                     )
                 })
                 .collect();
